@@ -69,16 +69,17 @@ def replay(pid, path):
 
     assignment = {k: fractions.Fraction(v) for k, v in rec["assignment"].items()}
     bad = False
+    primary = getattr(fam, "replay_mode", "mp")  # families about IEEE rounding replay on the float64 backend
     for mode in ("mp", "f64"):
         res, R = driver.concrete_eval(fam.fn, assignment, mode)
         print(f"[{mode}]", json.dumps({k: (v if isinstance(v, str) else [v[0], str(v[1])[:120]]) for k, v in res.items()}, indent=1))
         if "__raised__" in res:
-            bad = bad or mode == "mp"
+            bad = bad or mode == primary
         elif "__skip__" not in res:
             g = rec.get("goal")
-            if g in res and not res[g][0] and mode == "mp":
+            if g in res and not res[g][0] and mode == primary:
                 bad = True
-            if g not in res and mode == "mp" and any(not v[0] for v in res.values()):
+            if g not in res and mode == primary and any(not v[0] for v in res.values()):
                 bad = True
     if bad:
         print(f"VIOLATION property={pid} replay={path}")
